@@ -99,6 +99,7 @@ class LineCounter:
         self.n = 0
         self.abort_at = abort_at
         self.where = None
+        self.first_seen = {}     # function -> index of its first line event (counting pass only)
 
     def tracer(self, frame, event, arg):
         if "/teaal/" not in frame.f_code.co_filename:
@@ -108,7 +109,11 @@ class LineCounter:
     def local(self, frame, event, arg):
         if event == "line":
             self.n += 1
-            if self.abort_at is not None and self.n == self.abort_at:
+            if self.abort_at is None:
+                key = frame.f_code
+                if key not in self.first_seen:
+                    self.first_seen[key] = self.n
+            elif self.n == self.abort_at:
                 self.where = "%s:%s" % (frame.f_code.co_filename.split("/teaal/")[-1], frame.f_code.co_name)
                 raise SimAbort()
         return self.local
@@ -224,9 +229,17 @@ def c15_unit(args):
                     # count on fresh objects first (an ordinary, completed compilation)
                     st, text, lc = traced_compile(parse_bundle(specs[i]["yaml"], specs[i]["mode"]), None)
                     total = specs[i]["lines"] = max(1, lc.n)
+                    specs[i]["sites"] = sorted(lc.first_seen.values())
                     out["compiles"] += 1
                     check_text(i, text, oi)
-                n = max(1, int(frac * total))
+                sites = specs[i].get("sites") or []
+                if sites and int(frac * 1000) % 2:
+                    # land inside a function chosen uniformly among all teaal functions the compile enters
+                    # (uniform line sampling alone lands almost only in the hot hashing/repr code)
+                    j = int(frac * len(sites)) % len(sites)
+                    n = sites[j] + int(frac * 7919) % 3
+                else:
+                    n = max(1, int(frac * total))
                 st, text, lc = traced_compile(objs, n)
                 if st == "aborted":
                     out["faults"]["aborted"] += 1
